@@ -1,7 +1,7 @@
 (* Non-vacuity of the C11 theorems: concrete graphs / adjacencies meeting their hypotheses. *)
 From Coq Require Import List Bool ZArith QArith.
 From GV Require Import Base.Outcome Base.AMap Model.GState Model.Creation Model.Query
-     Model.Components Model.Cluster Model.Square Spec.ClusterDef Proofs.ClusterDefOk.
+     Model.Components Model.Cluster Model.Square Spec.ClusterDef Spec.ClusterSpec Proofs.ClusterDefOk.
 Import ListNotations.
 Close Scope Q_scope.
 Open Scope Z_scope.
@@ -57,4 +57,10 @@ Proof. vm_compute. reflexivity. Qed.
 (* refusals: graphs with the hypotheses *)
 Example refuses_hypotheses :
   (on_graph ex_mg (fun g => multi (sp g)) false, on_graph ex_dg (fun g => directed (sp g)) false) = (true, true).
+Proof. vm_compute. reflexivity. Qed.
+
+(* C11_triangles_eq_def / C11_clustering_eq_def: a graph passing the coherence test *)
+Example eq_def_hypotheses :
+  on_graph ex_ug (fun g => nbr_ok_b Z.eqb g && negb (directed (sp g)) &&
+                           is_ok (triangles Z.eqb g (Some [2])) && is_ok (clustering Z.eqb g None)) false = true.
 Proof. vm_compute. reflexivity. Qed.
